@@ -8,6 +8,7 @@ using namespace libphysica;
 typedef long double ld;
 
 static const std::vector<double> ANS = {-1e6, -1, -1e-6, 0, 1e-6, 1, 1e6};
+static std::vector<double> ANS_mut = ANS;   // the alphabet in force (a second pass uses values whose products underflow)
 
 // ---- exit guard: a valid request must never terminate the process ---------------------------------------------
 static std::string g_current;	// description of the execution in flight
@@ -58,7 +59,7 @@ struct Env
 		{
 			int c = (newq < (int)sched.size()) ? sched[newq] : 0;
 			if(newq >= (int)sched.size()) sched.push_back(0);
-			v = ANS[c];
+			v = ANS_mut[c];
 			used = newq + 1;
 		}
 		else
@@ -83,6 +84,7 @@ static std::string sched_str(const std::vector<int>& s, int n)
 	return r.empty() ? "-" : r;
 }
 
+static bool opposite(double a, double b) { return (a < 0 && b > 0) || (a > 0 && b < 0); }   // (a*b < 0 would underflow for tiny values)
 // certificate: every continuous function consistent with the answers changes sign or vanishes within acc of r
 static bool certificate(const std::vector<std::pair<double, double>>& pts, double r, double acc)
 {
@@ -91,7 +93,7 @@ static bool certificate(const std::vector<std::pair<double, double>>& pts, doubl
 		// "within acc" up to the rounding of the abscissae themselves (r + acc is not exactly representable)
 		double slack = acc + 4 * mc::U_ * (std::fabs(r) + acc);
 		if(pts[i].second == 0 && std::fabs(pts[i].first - r) <= slack) return true;
-		if(i + 1 < pts.size() && pts[i].second * pts[i + 1].second < 0 && std::fabs(pts[i].first - r) <= slack && std::fabs(pts[i + 1].first - r) <= slack) return true;
+		if(i + 1 < pts.size() && opposite(pts[i].second, pts[i + 1].second) && std::fabs(pts[i].first - r) <= slack && std::fabs(pts[i + 1].first - r) <= slack) return true;
 	}
 	return false;
 }
@@ -103,7 +105,7 @@ static std::vector<std::pair<double, double>> counterexample(const std::vector<s
 	for(size_t i = 0; i < pts.size(); i++)
 	{
 		f.push_back(pts[i]);
-		if(i + 1 < pts.size() && pts[i].second * pts[i + 1].second < 0)
+		if(i + 1 < pts.size() && opposite(pts[i].second, pts[i + 1].second))
 		{
 			double xa = pts[i].first, xb = pts[i + 1].first, w = (xb - xa) / 1024;
 			bool far_is_left = std::fabs(xa - r) >= std::fabs(xb - r);
@@ -128,7 +130,7 @@ static double pl_root_distance(const std::vector<std::pair<double, double>>& f, 
 	for(size_t i = 0; i < f.size(); i++)
 	{
 		if(f[i].second == 0) best = std::min(best, std::fabs(f[i].first - r));
-		if(i + 1 < f.size() && f[i].second * f[i + 1].second < 0)
+		if(i + 1 < f.size() && opposite(f[i].second, f[i + 1].second))
 		{
 			ld t	  = (ld)f[i].second / ((ld)f[i].second - f[i + 1].second);
 			double xr = (double)(f[i].first + t * ((ld)f[i + 1].first - f[i].first));
@@ -225,7 +227,7 @@ static void adversary(unsigned long long& unit)
 			// odometer over the consumed choice points
 			s.resize(used);
 			int k = used;
-			while(k > 0 && s[k - 1] == (int)ANS.size() - 1) k--;
+			while(k > 0 && s[k - 1] == (int)ANS_mut.size() - 1) k--;
 			if(k == 0) break;
 			s[k - 1]++;
 			s.resize(k);
@@ -243,6 +245,20 @@ static void adversary(unsigned long long& unit)
 				double acc = ai == 0 ? 1e-12 * w : ai == 1 ? 1e-6 * w : ai == 2 ? 1e-2 * w : w / 4;
 				explore(Config{br.first, br.second, acc, en.first, en.second}, D);
 			}
+	{
+		// second answer alphabet with values whose pairwise products underflow: sign decisions must not be made through products
+		const std::vector<double> TINY_ANS = {-1, -1e-200, 0, 1e-200, 1};
+		std::vector<double> saved = ANS_mut;
+		ANS_mut = TINY_ANS;
+		for(auto& br : std::vector<std::pair<double, double>>{{0, 1}, {-3, 5}})
+			for(double acc : {1e-6, 0.25})
+				for(auto en : std::vector<std::pair<double, double>>{{-1e-200, 1e-200}, {1e-200, -1}, {-1, 1e-200}, {1, -1e-200}})
+				{
+					if(!mc::mine(unit++)) continue;
+					explore(Config{br.first, br.second, acc * (br.second - br.first), en.first, en.second}, 6);
+				}
+		ANS_mut = saved;
+	}
 	if(mc::thorough())
 	{
 		// depth 8 for every end-value pair and accuracy on [0,1]; depth 9 for four configurations
@@ -354,6 +370,15 @@ static void families(unsigned long long& unit)
 	for(double z : {0.0, 0.3, -2.0})
 		for(double sc : {1.0, 1e-3, 1e3})
 			fams.push_back({"cubic_inflection_z" + mc::dec(z) + "_s" + mc::dec(sc), [z, sc](ld x) { return sc * (x - z) * (x - z) * (x - z); }, -5, 7, {z}});
+	// values so small (or large) that products of two of them leave the double range
+	for(int p : {15, 21})
+		for(auto br : std::vector<std::pair<double, double>>{{0, 3}, {-1, 2.5}, {0.5, 1.75}})
+			fams.push_back({"shifted_pow_p" + std::to_string(p), [p](ld x) { return powl(x - 1, p); }, br.first, br.second, {1}});
+	for(double sc : {1e-160, 1e-200, 1e150})
+	{
+		fams.push_back({"scaled_cubic_s" + mc::dec(sc), [sc](ld x) { return sc * (x * x * x - 2); }, 0, 3, {cbrtl(2.0L)}});
+		fams.push_back({"scaled_tanh_s" + mc::dec(sc), [sc](ld x) { return sc * (tanhl(x) - 0.3L); }, -5, 8, {atanhl(0.3L)}});
+	}
 	fams.push_back({"x3_minus_x", [](ld x) { return x * x * x - x; }, -1.5, 1.7, {-1, 0, 1}});
 	fams.push_back({"x3_minus_x_b", [](ld x) { return x * x * x - x; }, -3, 1.5, {-1, 0, 1}});
 	fams.push_back({"cos", [](ld x) { return cosl(x); }, 0, 8, {M_PIl / 2, 3 * M_PIl / 2, 5 * M_PIl / 2}});
